@@ -71,7 +71,7 @@ PROPS = {
         'projection': ['proc.sharesBeforeModified', 'node.Node#5', 'node.Node#6'], 'monitors': ['proc.', 'twin.'], 'families': ['staking', 'node', 'block'],
     },
     'C04': {
-        'theorems': 'Properties/C04', 'obligation_files': ['Obligations/ObShape'],
+        'theorems': 'Properties/C04', 'scenarios': ['flow-debt-claim', 'flow-renew2-migrate'], 'obligation_files': ['Obligations/ObShape'],
         'profiles': [SAO, SAOLONG],
         'projection': ['bank.Balance', 'market.Worker', 'order.Order#8', 'order.Order#6', 'order.Order#5'],
         'monitors': ['solv.market', 'solv.order', 'cons.', 'frame.supply'], 'families': ['sao', 'block', 'node'],
@@ -83,37 +83,37 @@ PROPS = {
         'monitors': ['sched.expdata_live', 'sched.meta_scheduled', 'ref.model_alias', 'rollback.'], 'families': ['sao', 'block'],
     },
     'C06': {
-        'theorems': 'Properties/C06', 'obligation_files': ['Obligations/ObShape'],
+        'theorems': 'Properties/C06', 'scenarios': ['flow-debt-claim'], 'obligation_files': ['Obligations/ObShape'],
         'profiles': [SAO, SAOLONG, NODE],
         'projection': ['bank.Balance', 'bank.Supply', 'node.PledgeDebt', 'did.DidBalances'],
         'monitors': ['solv.'], 'families': ['sao', 'block', 'node', 'bank'],
     },
     'C07': {
-        'theorems': 'Properties/C07', 'obligation_files': [],
+        'theorems': 'Properties/C07', 'scenarios': ['flow-debt-claim', 'flow-renew2-migrate'], 'obligation_files': [],
         'profiles': [SAO, SAOLONG, NODE],
         'projection': ['bank.Balance', 'node.Pledge#0', 'node.Pledge#1', 'node.Pledge#4', 'node.Pledge#5', 'node.PledgeDebt', 'order.Shard#4', 'order.Shard#9'],
         'monitors': ['agg.used_bounds', 'agg.shpledged_is_sum', 'agg.used_is_sum', 'frame.node_msgs', 'solv.node'], 'families': ['sao', 'block', 'node'],
     },
     'C08': {
-        'theorems': 'Properties/C08', 'obligation_files': ['Obligations/ObShape'],
+        'theorems': 'Properties/C08', 'scenarios': ['flow-debt-claim'], 'obligation_files': ['Obligations/ObShape'],
         'profiles': [NODE, SAO, SAOLONG],
         'projection': ['bank.Supply', 'node.Pool', 'node.Pledge#2', 'node.Pledge#3', 'node.Pledge#4'],
         'monitors': ['agg.pool_is_sum', 'frame.supply', 'solv.node', 'mint.'], 'families': ['block', 'node', 'sao'],
     },
     'C09': {
-        'theorems': 'Properties/C09', 'obligation_files': [],
+        'theorems': 'Properties/C09', 'scenarios': ['flow-forged-owner'], 'obligation_files': [],
         'profiles': [SAO, SAOLONG],
         'projection': ['model.'], 'monitors': ['authz.store', 'authz.renew', 'authz.terminate', 'authz.permission', 'frame.models'],
         'families': ['sao', 'block'],
     },
     'C10': {
-        'theorems': 'Properties/C10', 'obligation_files': [],
+        'theorems': 'Properties/C10', 'scenarios': ['flow-forged-owner'], 'obligation_files': [],
         'profiles': [SAO, NODE],
         'projection': ['order.Order+keys', 'order.Order#5', 'order.Shard#1', 'order.Shard#6', 'node.Node', 'node.Pledge', 'bank.Balance'],
         'monitors': ['authz.complete', 'authz.cancel', 'authz.payer', 'frame.node_msgs'], 'families': ['sao', 'node'],
     },
     'C11': {
-        'theorems': 'Properties/C11', 'obligation_files': ['Obligations/ObShape'],
+        'theorems': 'Properties/C11', 'scenarios': ['flow-renew2-migrate'], 'obligation_files': ['Obligations/ObShape'],
         'profiles': [SAOLONG, SAO],
         'projection': ['order.Shard+keys', 'order.Shard#7', 'order.Shard#8', 'order.Shard#9', 'order.Order+keys', 'model.Metadata+keys', 'model.Metadata#11',
                        'sao.ExpiredShard', 'model.ExpiredData', 'node.Pledge#5', 'node.Pledge#1', 'market.Worker'],
@@ -126,14 +126,14 @@ PROPS = {
         'monitors': ['sched.timeout_scheduled', 'sched.long_timeout_scheduled', 'sched.timeouts_future', 'sel.order_sps_distinct'], 'families': ['block', 'sao'],
     },
     'C13': {
-        'theorems': 'Properties/C13', 'obligation_files': [],
+        'theorems': 'Properties/C13', 'scenarios': ['flow-renew2-migrate'], 'obligation_files': [],
         'profiles': [SAO, SAOLONG],
         'projection': ['order.Order#7', 'order.Order+keys', 'order.Shard#0', 'order.Shard+keys', 'model.Metadata+keys', 'model.Metadata#1', 'model.Metadata#2',
                        'model.Model', 'sao.ExpiredShard'],
         'monitors': ['ref.'], 'families': ['sao', 'block'],
     },
     'C14': {
-        'theorems': 'Properties/C14', 'obligation_files': [],
+        'theorems': 'Properties/C14', 'scenarios': ['flow-debt-claim', 'flow-renew2-migrate'], 'obligation_files': [],
         'profiles': [SAO, SAOLONG, NODE],
         'projection': ['node.Pledge#0', 'node.Pledge#1', 'node.Pledge#4', 'node.Pledge#5', 'market.Worker#0', 'market.Worker#2', 'node.Pool#0', 'node.Pool#6',
                        'order.Shard#2', 'order.Shard#4'],
@@ -163,7 +163,7 @@ PROPS = {
         'projection': ['*'], 'monitors': ['genesis.'], 'families': ['genesis'],
     },
     'C19': {
-        'theorems': 'Properties/C19', 'obligation_files': [],
+        'theorems': 'Properties/C19', 'scenarios': ['flow-fault-not-held'], 'obligation_files': [],
         'profiles': [SAO],
         'projection': ['node.FaultById', 'node.FaultIndex', 'node.FishingReward', 'bank.Balance', 'node.Pledge', 'order.', 'model.Metadata'],
         'monitors': ['frame.faults', 'authz.faults', 'authz.recover_own'], 'families': ['fault'],
